@@ -199,7 +199,7 @@ def b_structure(cl, mod, H, n, nlast=NMAX):
             conc3 = resolve_arrays([conc2], idx)[0]
             cl.add('C13/F/n%d/value/%s/f%d%d%d' % (n, tagp, fv[0], fv[1], fv[2]), ev, prem2, conc3,
                    'F_H = sum_atoms occupancy x (f0-part + f\' + i f\'\') x exp(i 2 pi H.r) with the atomic factors Atomic_Factors reports; %d atoms, '
-                   'atoms sharing an element: %s, flags (%d,%d,%d)' % (n, tagp, fv[0], fv[1], fv[2]), functions=[fn], timeout=90, check_premise=(fv == (2, 2, 2)))
+                   'atoms sharing an element: %s, flags (%d,%d,%d)' % (n, tagp, fv[0], fv[1], fv[2]), functions=[fn], timeout=240, check_premise=(fv == (2, 2, 2)))
     failc = And(r.rv[0] == 0, r.rv[1] == 0, r.errset, r.sets_on_slot == 1, r.overwrites == 0)
     for part in partitions(list(range(n))):
         reps = [min(c) for c in part]
